@@ -79,10 +79,11 @@ PROPERTIES['C03'] = {
 PROPERTIES['C04'] = {
     'level': 'other',
     'configs': two,
-    'rules': [olc('LOCK-1'), olc('LOCK-5')],
+    'rules': [olc('LOCK-1'), olc('LOCK-5'), R(olcrules.lock6), R(acc.own1)],
     'explanation': 'Structural safety conditions of "no use of reclaimed memory": LOCK-1 (no pointer obtained from a node is followed before the read section on that node is re-validated, so a stale pointer to a retired node is never dereferenced) '
-                   'and LOCK-5 (every node an OLC operation hands to reclamation was unlocked-and-obsoleted by it first, so readers still holding a section on it restart), on every path of every OLC function, both key kinds.',
-    'decides': 'validate-before-dereference; obsolete-before-retire',
+                   'and LOCK-5 (every node an OLC operation hands to reclamation was unlocked-and-obsoleted by it first, so readers still holding a section on it restart; checked at restart returns too - a node retired and then abandoned by a restart is still linked), on every path of every OLC function, both key kinds; '
+                   'LOCK-6 (in the OLC instantiation an existing node is never wrapped in an owner with the immediate deleter outside the single-threaded teardown: ever-reachable nodes are freed only through QSBR); OWN-1 (a node released from its unique_ptr is published or re-owned on every path: no node is lost without being freed).',
+    'decides': 'validate-before-dereference; obsolete-before-retire; deferred free only; no leak of released nodes',
     'does_not_decide': 'that QSBR delays the free long enough (C05); eventual reclamation as liveness',
 }
 PROPERTIES['C09'] = {
